@@ -3,7 +3,7 @@
 # 1. apply patch in /tmp/wt_seed (worktree of /repo HEAD with build dir _b), rebuild, run the 68 baseline tests
 # 2. run the property's check against the mutated tree (VERIF_REPO)   3. undo the patch
 D=$1; P=$2; shift 2
-W=/tmp/wt_seed
+W=${SEED_WT:-/tmp/wt_seed}
 cd $W && git checkout -q -- . && git apply "$D/patch.diff" || { echo "APPLY-FAILED"; exit 3; }
 if cmake --build _b >/tmp/seed_build.log 2>&1; then echo "build: ok"; else echo "build: FAILED"; tail -3 /tmp/seed_build.log; fi
 ctest --test-dir _b -j8 --timeout 900 -E regress > /tmp/seed_ctest.log 2>&1; grep "tests passed\|tests failed" /tmp/seed_ctest.log
